@@ -4,6 +4,41 @@ import json, os, subprocess
 V = os.path.dirname(os.path.dirname(os.path.abspath(__file__)))
 out = []
 kf = json.load(open(os.path.join(V, 'known_findings.json')))['findings']
+# 12.0 as-built numbers: quick tier from the committed evidence files, thorough tier from the last recorded sweep
+import re, sys
+sys.path.insert(0, os.path.join(V, 'tools'))
+try:
+    from registry import CHECKS
+except Exception:
+    CHECKS = {}
+sweep = {}
+sp = os.path.join(V, 'sweeps', 'thorough_last.txt')
+if os.path.exists(sp):
+    for ln in open(sp):
+        m = re.match(r'(C\d\d) rc=(\d+) (\d+)s .*?(HELD|VIOLATED) property=\S+ tier=thorough seed=(\d+) evaluations=(\d+) distinct=(\d+)', ln)
+        if m:
+            sweep[m.group(1)] = m.groups()
+out.append('### 12.0 Checks as built (measured)\n')
+out.append('Quick numbers are those of the committed `evidence/<id>.json`; thorough numbers come from the last full sweep (`sweeps/thorough_last.txt`, one run per property, 16 cores, warm build cache).\n')
+out.append('| property | sanitizer builds | quick: evaluations / distinct / wall | thorough: verdict, evaluations / distinct / wall |\n|---|---|---|---|')
+for pid in sorted(k for k in CHECKS if re.fullmatch(r'C\d\d', k)):
+    ep = os.path.join(V, 'evidence', pid + '.json')
+    q = '-'
+    fl = ''
+    if os.path.exists(ep):
+        e = json.load(open(ep))
+        c = e.get('coverage', {})
+        fl = '+'.join(c.get('flavours', []))
+        if e.get('tier') == 'quick':
+            q = '%s / %s / %ss' % (c.get('evaluations'), c.get('distinct_nontrivial'), e.get('wall_s'))
+        else:
+            q = '(evidence file currently holds a %s run)' % e.get('tier')
+    t = '-'
+    if pid in sweep:
+        g = sweep[pid]
+        t = '%s, %s / %s / %ss' % (g[3], g[5], g[6], g[2])
+    out.append('| %s | %s | %s | %s |' % (pid, fl, q, t))
+out.append('')
 out.append('### 12.1 Defects of managarm/frigg found by the monitors\n')
 out.append('| property | status | commit | what failed |\n|---|---|---|---|')
 for f in kf:
